@@ -25,6 +25,27 @@ impl PartialOrd for PV {
         }
     }
 }
+/// the product order with versions that compare to nothing, themselves included (first
+/// component 99), as f64::NAN does
+#[derive(Debug, Clone, Copy, PartialEq, Eq, Serialize, Deserialize)]
+struct NV(u64, u64);
+impl PartialOrd for NV {
+    fn partial_cmp(&self, o: &Self) -> Option<Ordering> {
+        if self.0 == 99 || o.0 == 99 {
+            None
+        } else {
+            PV(self.0, self.1).partial_cmp(&PV(o.0, o.1))
+        }
+    }
+}
+impl ArtifactRequirement<NV, u64> for Req {
+    fn satisfies_metadata(&self, m: &u64) -> bool {
+        *m >= self.meta_min
+    }
+    fn satisfies_version(&self, v: &NV) -> bool {
+        self.allowed.contains(&(v.0, v.1))
+    }
+}
 /// lexicographic total order on pairs
 #[derive(Debug, Clone, Copy, PartialEq, Eq, PartialOrd, Ord, Serialize, Deserialize)]
 struct TV(u64, u64);
@@ -63,10 +84,12 @@ fn pair(v: &Value) -> (u64, u64) {
 fn run_resolve(case: &Value) -> Value {
     let mut pinv: Inventory<PV, (), u64> = Inventory::new();
     let mut tinv: Inventory<TV, (), u64> = Inventory::new();
+    let mut ninv: Inventory<NV, (), u64> = Inventory::new();
     for a in case["arts"].as_array().unwrap() {
         let (x, y) = pair(&a["ver"]);
         let cks = || "any:00".parse::<Checksum<()>>().unwrap();
         pinv.push(Artifact { version: PV(x, y), os: os_of(&a["os"]), arch: arch_of(&a["arch"]), url: String::new(), checksum: cks(), metadata: a["meta"].as_u64().unwrap() });
+        ninv.push(Artifact { version: NV(x, y), os: os_of(&a["os"]), arch: arch_of(&a["arch"]), url: String::new(), checksum: cks(), metadata: a["meta"].as_u64().unwrap() });
         tinv.push(Artifact { version: TV(x, y), os: os_of(&a["os"]), arch: arch_of(&a["arch"]), url: String::new(), checksum: cks(), metadata: a["meta"].as_u64().unwrap() });
     }
     let mut res = vec![];
@@ -76,7 +99,9 @@ fn run_resolve(case: &Value) -> Value {
         let t = tinv.resolve(os_of(&q["os"]), arch_of(&q["arch"]), &req);
         let pi = p.map(|r| pinv.artifacts.iter().position(|a| std::ptr::eq(a, r)).unwrap());
         let ti = t.map(|r| tinv.artifacts.iter().position(|a| std::ptr::eq(a, r)).unwrap());
-        res.push(json!({"partial": pi, "total": ti}));
+        let n = ninv.partial_resolve(os_of(&q["os"]), arch_of(&q["arch"]), &req);
+        let ni = n.map(|r| ninv.artifacts.iter().position(|a| std::ptr::eq(a, r)).unwrap());
+        res.push(json!({"partial": pi, "total": ti, "pnan": ni}));
     }
     json!({"id": case["id"], "results": res})
 }
